@@ -422,7 +422,8 @@ func (l *live) absorb() {
 			continue
 		}
 		cur := map[string]uint32{}
-		for n, e := range doc {
+		for _, n := range SortedKeys(doc) {
+			e := doc[n]
 			if e == nil || e.Secret == nil || n == "" {
 				l.fail("doc-shape", "cache document has a malformed entry for %q", n)
 				continue
@@ -440,12 +441,13 @@ func (l *live) absorb() {
 				l.fail("lastaccess", "cache document written at store time %d records lastAccess %d for %q, but it was read at %d", cw.Clock, la, n, lr)
 			}
 		}
-		for n, v := range cur {
+		for _, n := range SortedKeys(cur) {
+			v := cur[n]
 			if pv, ok := l.prevDoc[n]; !ok || pv != v {
 				l.installs[n] = append(l.installs[n], inst{cw.Stamp, v})
 			}
 		}
-		for n := range l.prevDoc {
+		for _, n := range SortedKeys(l.prevDoc) {
 			if _, ok := cur[n]; !ok {
 				l.installs[n] = append(l.installs[n], inst{cw.Stamp, 0})
 				l.judgeDrop(n, cw)
@@ -543,6 +545,7 @@ func (l *live) refresh() {
 	st := w.Store
 	w.Spawn("refresh", func(*kernel.Task) {
 		err := st.Refresh(ctx)
+		w.Gate()
 		w.callReturn()
 		l.tasksBusy--
 		w.Tracef("refresh returned %v", err)
@@ -582,7 +585,7 @@ func (l *live) afterRound(knownAtStart map[string]bool, _ int64, end int64, err 
 	}
 	w.S.Probe("round-ok")
 	l.absorb()
-	for n := range knownAtStart {
+	for _, n := range SortedKeys(knownAtStart) {
 		v, still := l.prevDoc[n]
 		if !still {
 			continue // dropped: C19's business
@@ -629,6 +632,7 @@ func (l *live) lookup() {
 	w.Tracef("lookup %q", n)
 	w.Spawn("lookup", func(*kernel.Task) {
 		h, err := st.LookupSecret(ctx, n)
+		w.Gate()
 		l.tasksBusy--
 		if err == nil && h != nil && gen == l.generation {
 			// C13: a lookup that installed a value rewrites the cache
@@ -829,6 +833,7 @@ func (l *live) newUpdater() {
 	w.Spawn("newupd", func(*kernel.Task) {
 		us.invoked = w.Stamp()
 		u, err := setec.NewUpdater(ctx, st, n, build)
+		w.Gate()
 		us.created = w.Stamp()
 		l.tasksBusy--
 		if err != nil || gen != l.generation {
@@ -1021,6 +1026,7 @@ func (l *live) close() {
 	mark := w.Stamp()
 	w.Spawn("close", func(*kernel.Task) {
 		st.Close()
+		w.Gate()
 		l.tasksBusy--
 		w.Tracef("Close returned")
 		// C13: when the poller shuts down the cache is rewritten, complete
@@ -1059,7 +1065,8 @@ func (l *live) restart() {
 	w.Tracef("restart from cache: %s", shortDoc(string(w.Cache.LastGood())))
 	// stamps of names loaded from the cache come from the document
 	if doc, err := ParseDoc(w.Cache.LastGood()); err == nil {
-		for n, e := range doc {
+		for _, n := range SortedKeys(doc) {
+			e := doc[n]
 			if e != nil {
 				if la, err := strconv.ParseInt(e.LastAccess, 10, 64); err == nil {
 					l.lastRead[n] = la
@@ -1133,6 +1140,7 @@ func (l *live) probeRestart() {
 	done := false
 	w.Spawn("probe", func(*kernel.Task) {
 		pst, perr = setec.NewStore(ctx, probeCfg)
+		w.Gate()
 		done = true
 	})
 	for i := 0; i < 500 && !done; i++ {
@@ -1152,7 +1160,8 @@ func (l *live) probeRestart() {
 	if n := w.Svc.NumReqs() - before; n != 0 {
 		l.fail("restart-probe", "a store started from a complete cache document made %d requests", n)
 	}
-	for n, e := range doc {
+	for _, n := range SortedKeys(doc) {
+		e := doc[n]
 		var h setec.Secret
 		func() {
 			defer func() { recover() }()
@@ -1181,7 +1190,8 @@ func (l *live) probeRestart() {
 			l.fail("restart-probe", "the cache document is not accepted by the file-backed client: %v", err)
 			return
 		}
-		for n, e := range doc {
+		for _, n := range SortedKeys(doc) {
+			e := doc[n]
 			if len(e.Secret.Value) == 0 {
 				continue
 			}
@@ -1218,6 +1228,7 @@ func (l *live) finalConverge() {
 	w.callInvoke()
 	w.Spawn("final-refresh", func(*kernel.Task) {
 		rerr = st.Refresh(ctx)
+		w.Gate()
 		w.callReturn()
 		done = true
 	})
@@ -1238,7 +1249,8 @@ func (l *live) finalConverge() {
 	}
 	l.afterRound(kn, 0, w.StampNow(), nil, false)
 	l.absorb()
-	for n, v := range l.prevDoc {
+	for _, n := range SortedKeys(l.prevDoc) {
+		v := l.prevDoc[n]
 		av, ab := w.Svc.Active(n)
 		if v != av {
 			l.fail("converge", "after a successful refresh with a healthy service %q is at version %d in the cache, the service's active version is %d", n, v, av)
@@ -1262,7 +1274,7 @@ func (l *live) finalConverge() {
 		l.readStamp[n] = w.Stamp()
 	}
 	// every name the store knows is in the document
-	for n := range l.handles {
+	for _, n := range SortedKeys(l.handles) {
 		if _, ok := l.prevDoc[n]; !ok && st.Secret(n) != nil && !l.droppedKeptHandle(n) {
 			l.fail("doc-complete", "the store knows %q but the last cache document does not hold it", n)
 		}
